@@ -10,6 +10,7 @@ mod search;
 mod serde_find;
 mod decoder_find;
 mod opcost_find;
+mod prog_find;
 mod treehash_find;
 mod unknown_find;
 mod varint_find;
